@@ -48,7 +48,8 @@ for _p in ["C%02d" % i for i in range(1, 21)]:
 
 P("C05", "model_checking", kani={"timeout": "900s"},
   bounded="programs: depth profiles n<=3 (quick: d<=2 plus selected d=3; thorough: d<=3 plus n=4 samples), Option/Result sync and Result async; every (branch, step) failure flag and payload symbolic",
-  not_decided="spawn kinds (threads / tokio tasks): not executable by Kani")
+  unbounded="the transposer that turns the per-branch results into one Option/Result is r0.and_then(|r0| r1.and_then(|r1| .. rn.map(|rn| (all values)))) for ANY number of branches (generate_results_transposer, R13 desugaring of iter().rev().fold()): branch k is examined before every later one and the tuple is reached only when all succeeded",
+  not_decided="spawn kinds (threads / tokio tasks): not executable by Kani; the per-step abort code of join_steps is decided by the bounded programs only")
 
 P("C06", "model_checking", kani={"timeout": "900s"},
   bounded="same programs as C05; trace contract: exact event sequence of the staged reference (sync), no event of a step after the failing one (async)",
